@@ -7,6 +7,7 @@
 (* in harness/observe/geomrun.py:                                          *)
 (*   [origin, u, g, pb, ev: <<[op, o, b, r, n, cf, ct], ...>>]             *)
 (*   op "add"/"remove": object id o with box b; n = len(plane) afterwards  *)
+(*   op "xremove": a remove() that raised (the object is not in the index) *)
 (*   op "find": query b, r = ids returned ; "iter": r = ids ; "len": n     *)
 (* u > 0: coordinates are exact integers in units of 1/u and the cell      *)
 (*        ranges are computed here (CellRange);                            *)
@@ -68,6 +69,15 @@ EvRemove == /\ More /\ Ev.op = "remove"
 
 \* (the checks are the guard of an IF so that TLC evaluates them as one state-level expression; as conjuncts of
 \*  the action their quantifiers would be unfolded recursively and overflow the Java stack on long answers)
+\* remove() that raised (KeyError: the object is not in the index): nothing may change - the following answers are
+\* checked against the unchanged intended index; the index as coded runs its cell loop first (RemoveRejected)
+EvRemoveRejected == /\ More /\ Ev.op = "xremove"
+                    /\ LET e == Ev IN
+                         /\ e.o \notin Live
+                         /\ impl' = RemoveRejected(impl, e.o, CellSeq(CRM(e)), Dev)
+                         /\ e.n = Cardinality(impl'.objs)
+                    /\ k' = k + 1 /\ UNCHANGED <<t, ideal, reg, gone, dup, readd, miss, missi>>
+
 EvFind == /\ More /\ Ev.op = "find"
           /\ LET e == Ev
                  BoxOf == [o \in DOMAIN reg |-> reg[o].b]
@@ -99,7 +109,7 @@ EndTrace == /\ t <= N /\ k = Len(Cur.ev)
 
 Finished == t > N /\ UNCHANGED vars
 
-Next == EvAdd \/ EvRemove \/ EvFind \/ EvIter \/ EvLen \/ EndTrace \/ Finished
+Next == EvAdd \/ EvRemove \/ EvRemoveRejected \/ EvFind \/ EvIter \/ EvLen \/ EndTrace \/ Finished
 Spec == Init /\ [][Next]_vars
 
 \* evaluated in every state of every trace
